@@ -260,10 +260,20 @@ class StageExecution(StageNavigationMixin):
             # than NOT_STARTED which would incorrectly terminate the workflow.
             if self.status == WorkflowStatus.RUNNING:
                 if after_stage_statuses:
-                    if any(s in {WorkflowStatus.NOT_STARTED, WorkflowStatus.RUNNING} for s in after_stage_statuses):
-                        return WorkflowStatus.RUNNING
+                    # A halted after-stage outranks "still in progress" (same
+                    # order as below for stages with core work): with chained
+                    # after-stages a NOT_STARTED successor of a halted one is
+                    # never started, so reporting RUNNING first made the
+                    # CompleteStage sent by the halted after-stage look stale
+                    # and left the stage RUNNING forever.
                     if WorkflowStatus.TERMINAL in after_stage_statuses:
                         return WorkflowStatus.TERMINAL
+                    if WorkflowStatus.STOPPED in after_stage_statuses:
+                        return WorkflowStatus.STOPPED
+                    if WorkflowStatus.CANCELED in after_stage_statuses:
+                        return WorkflowStatus.CANCELED
+                    if any(s in {WorkflowStatus.NOT_STARTED, WorkflowStatus.RUNNING} for s in after_stage_statuses):
+                        return WorkflowStatus.RUNNING
                 return WorkflowStatus.SUCCEEDED
             return WorkflowStatus.NOT_STARTED
 
